@@ -117,6 +117,10 @@ func readHeader(reader io.ReaderAt) (map[[2]byte]uint64, map[string]string, int6
 	if err != nil {
 		return nil, nil, 0, fmt.Errorf("failed to read header size: %w", err)
 	}
+	// a well-formed header holds at most 65536 prefix entries of 10 bytes plus a little metadata
+	if headerSize > 16<<20 {
+		return nil, nil, 0, fmt.Errorf("invalid header size: %d", headerSize)
+	}
 	// read header bytes:
 	headerBuf := make([]byte, headerSize)
 	if err := readFullAt(reader, headerBuf, 4); err != nil {
